@@ -30,6 +30,7 @@ type trans struct {
 	reads  map[string]bool // heap keys read (footprint collection)
 	inSpec string
 	macroDepth int
+	noBase bool
 }
 
 func (t *trans) fail(f string, a ...any) {
@@ -678,7 +679,7 @@ func (w *world) specFootprints() map[string][]string {
 			continue
 		}
 		c := newSMT(w)
-		t := &trans{c: c, pkg: sd.Pkg, vars: map[string]tvar{}, cur: &state{heap: map[string]string{}, alloc: "A"}, reads: map[string]bool{}, inSpec: "@footprint"}
+		t := &trans{c: c, pkg: sd.Pkg, vars: map[string]tvar{}, cur: &state{heap: map[string]string{}, alloc: "A", base: map[string]heapBase{}}, reads: map[string]bool{}, inSpec: "@footprint"}
 		t.old = t.cur
 		func() {
 			defer func() {
@@ -780,6 +781,11 @@ func (t *trans) specApp(sd *specDef, x *cCall) (string, vtype) {
 		argSorts = append(argSorts, pt.sort)
 	}
 	c.usedSpecs[sd.Name] = true
+	if !sd.Macro && sd.Body != nil && !t.noBase {
+		if alt, ok := t.baseApp(sd, fp, plain, x, ret); ok {
+			return alt, ret
+		}
+	}
 	if sd.Macro {
 		if t.macroDepth > 8 {
 			t.fail("macro %s: expansion too deep (recursive?)", sd.Name)
@@ -887,4 +893,152 @@ func (c *smtctx) goTypeOfSort(sort string) types.Type {
 		return nil
 	}
 	return c.sortTypes[sort]
+}
+
+// baseApp: if some heap arrays in the footprint of a spec application differ from an earlier version only inside
+// local objects that have not escaped, the application over the *earlier* version is used instead, justified by
+// the lemma  "no argument lies in those objects  ==>  f(H_now, args) = f(H_base, args)"  (a spec function reads
+// only cells reachable from its arguments; an unescaped object is reachable only from registers). The guard is
+// emitted as an obligation-free assumption of the form (=> guard (= now base)); the base application is the
+// one that is unfolded.
+func (t *trans) baseApp(sd *specDef, fp []string, plain []string, x *cCall, ret vtype) (string, bool) {
+	c := t.c
+	var objs []baseObj
+	changed := false
+	baseArgs := make([]string, 0, len(fp)+len(plain))
+	nowArgs := make([]string, 0, len(fp)+len(plain))
+	var sorts []string
+	for _, k := range fp {
+		now := t.read(k)
+		nowArgs = append(nowArgs, now)
+		sorts = append(sorts, c.heapSorts[k])
+		if b, ok := t.cur.base[k]; ok && b.term != now {
+			baseArgs = append(baseArgs, b.term)
+			objs = append(objs, b.objs...)
+			changed = true
+		} else {
+			baseArgs = append(baseArgs, now)
+		}
+	}
+	if !changed {
+		return "", false
+	}
+	st := &trans{c: c, pkg: sd.Pkg}
+	var guards []string
+	for i, a := range plain {
+		pt := st.resolveType(sd.Params[i].Type)
+		sorts = append(sorts, pt.sort)
+		switch pt.sort {
+		case "Ref":
+			for _, o := range objs {
+				if c.mayPointInto(pt.gt, o.typ) {
+					guards = append(guards, fmt.Sprintf("(distinct (born %s) %s)", a, o.term))
+				}
+			}
+		case "Slice":
+			for _, o := range objs {
+				if c.mayPointInto(pt.gt, o.typ) {
+					guards = append(guards, fmt.Sprintf("(distinct (born (sdata %s)) %s)", a, o.term))
+				}
+			}
+		case "Int", "Bool", "String":
+		default:
+			if strings.HasPrefix(pt.sort, "(Array ") && !strings.Contains(pt.sort, "Ref") && !strings.Contains(pt.sort, "S_") {
+				continue
+			}
+			return "", false // a struct/array argument may carry references: no lemma
+		}
+	}
+	sym := "spec_" + sd.Name
+	c.declFun(sym, sorts, ret.sort)
+	nowApp := "(" + sym + " " + strings.Join(append(nowArgs, plain...), " ") + ")"
+	baseT := *t
+	cur := t.cur.clone()
+	for i, k := range fp {
+		cur.heap[k] = baseArgs[i]
+		delete(cur.base, k)
+	}
+	baseT.cur = cur
+	baseAppTerm, _ := baseT.specAppRaw(sd, x, plain)
+	g := and(guards...)
+	if g == "true" {
+		return baseAppTerm, true
+	}
+	// by the lemma the two applications are equal whenever the guard holds, so the conditional below is
+	// equivalent to the application over the current heap (which is unfolded as well: the guard may fail)
+	nowT := *t
+	nowT.noBase = true
+	nowApp, _ = nowT.specAppRaw(sd, x, plain)
+	return fmt.Sprintf("(ite %s %s %s)", g, baseAppTerm, nowApp), true
+}
+
+// specAppRaw builds (and unfolds) the application of sd to already translated arguments in t.cur.
+func (t *trans) specAppRaw(sd *specDef, x *cCall, plain []string) (string, vtype) {
+	st := &trans{c: t.c, pkg: sd.Pkg}
+	nt := *t
+	nt.vars = map[string]tvar{}
+	args := make([]cExpr, len(plain))
+	for i, p := range plain {
+		name := fmt.Sprintf("raw$%d", i)
+		nt.vars[name] = tvar{p, st.resolveType(sd.Params[i].Type)}
+		args[i] = &cIdent{name}
+	}
+	return nt.specApp(sd, &cCall{Fn: x.Fn, Args: args})
+}
+
+// mayPointInto: can a value of static Go type argT be (or point into) an object allocated with type objT?
+// By Go's type safety a *X can only point to a variable of type X, so the question is whether one of the
+// possible pointee types of argT occurs as a by-value component of objT.
+func (c *smtctx) mayPointInto(argT, objT types.Type) bool {
+	if argT == nil || objT == nil {
+		return true
+	}
+	comps := map[string]bool{}
+	var rec func(t types.Type)
+	rec = func(t types.Type) {
+		k := types.TypeString(t, nil)
+		if comps[k] {
+			return
+		}
+		comps[k] = true
+		switch u := t.Underlying().(type) {
+		case *types.Struct:
+			for i := 0; i < u.NumFields(); i++ {
+				rec(u.Field(i).Type())
+			}
+		case *types.Array:
+			rec(u.Elem())
+		}
+	}
+	rec(objT)
+	var pointees []types.Type
+	switch u := argT.Underlying().(type) {
+	case *types.Pointer:
+		pointees = append(pointees, u.Elem())
+	case *types.Interface:
+		if named, ok := argT.(*types.Named); ok && named.Obj().Pkg() != nil {
+			key := named.Obj().Pkg().Path() + "." + named.Obj().Name()
+			impls, known := c.w.impls[key]
+			if !known || !c.w.inModule(named.Obj().Pkg().Path()) {
+				return true
+			}
+			for _, im := range impls {
+				pointees = append(pointees, im)
+			}
+		} else {
+			return true
+		}
+	case *types.Slice:
+		pointees = append(pointees, u.Elem())
+	case *types.Map, *types.Chan, *types.Signature:
+		return false
+	default:
+		return true
+	}
+	for _, p := range pointees {
+		if comps[types.TypeString(p, nil)] {
+			return true
+		}
+	}
+	return false
 }
